@@ -73,6 +73,12 @@ var Pool = map[string]Tuple{
 	"k6": {"10.0.0.1", "10.0.0.2", 6, 1000, 81},
 	"k7": {"10.0.0.3", "10.0.0.2", 6, 1000, 80},
 	"k8": {"2001:db8::1", "2001:db8::2", 6, 1000, 443},
+	// protocols without ports: the port fields still tell flows apart (ICMP, GRE)
+	// (non-zero everywhere: GetRecords treats a zero field of its filter as "any")
+	"k9":  {"10.0.0.1", "10.0.0.2", 1, 8, 1},
+	"k10": {"10.0.0.1", "10.0.0.2", 1, 8, 2},
+	"k11": {"10.0.0.1", "10.0.0.2", 47, 1, 1},
+	"k12": {"2001:db8::1", "2001:db8::2", 58, 128, 1},
 }
 
 func KeyName(fk intermediate.FlowKey) string {
@@ -231,7 +237,12 @@ func (p *P) FlowProj(name string, f intermediate.VerifFlow) Ev {
 	fk := Pool[name].FlowKey()
 	recs := p.A.GetRecords(&fk)
 	if len(recs) != 1 {
-		return vt.Ev{"k": name, "nrecs": len(recs)}
+		// the flow is in the snapshot but GetRecords does not return exactly one record for its key: a record of the
+		// usual shape with impossible values (the trace spec then rejects it instead of tripping over a missing field)
+		neg := []int{-1, -1, -1, -1, -1, -1}
+		return vt.Ev{"k": name, "nrecs": len(recs), "sp": "?", "dp": "?", "sns": "?", "dns": "?", "ftype": -1, "egress": -1, "ingress": -1, "prio": -999,
+			"start": -1, "end": -1, "endS": -1, "endD": -1, "com": neg, "frS": neg, "frD": neg, "tp": []int{-1, -1}, "tpS": []int{-1, -1}, "tpD": []int{-1, -1},
+			"reason": -1, "ready": false, "retries": -1, "filled": false}
 	}
 	return withKV(p.FlowProjOf(name, recs[0], f.Ready, f.Filled), "retries", f.Retries)
 }
